@@ -265,6 +265,22 @@ func encSnap(s sdktrace.ReadOnlySpan, initName string) string {
 	return st.enc()
 }
 
+// extraProc is a processor that tasks register and unregister while spans end. It sits in front of the
+// recording processors in the provider's list, so removing it shifts them.
+type extraProc struct {
+	w    *world
+	id   int
+	seen map[string]int
+}
+
+func (p *extraProc) OnStart(context.Context, sdktrace.ReadWriteSpan) {}
+func (p *extraProc) Shutdown(context.Context) error                 { return nil }
+func (p *extraProc) ForceFlush(context.Context) error               { return nil }
+func (p *extraProc) OnEnd(s sdktrace.ReadOnlySpan) {
+	p.seen[s.Name()]++
+	simrt.Yield(simdrv.PtStub) // a processor takes its time: the End that called it may be overtaken here
+}
+
 type world struct {
 	r       *simdrv.Run
 	sim     *simrt.Sim
@@ -286,6 +302,7 @@ func (engine) Body(r *simdrv.Run) {
 	nSpans := 1 + r.Cfg(3)
 	nTasks := 2 + r.Cfg(4)
 	nProcs := 1 + r.Cfg(2)
+	withExtras := r.Cfg(3) == 0 // provider methods (Register/Unregister of other processors) race with the span methods
 	uniq := 0
 	u := func(p string) string { uniq++; return fmt.Sprintf("%s%d", p, uniq) }
 	plans := make([][]planOp, nTasks)
@@ -318,11 +335,16 @@ func (engine) Body(r *simdrv.Run) {
 			default:
 				in.Kind = "child"
 			}
+			if withExtras && r.Cfg(6) == 0 {
+				in.Kind = []string{"unreg-extra", "unreg-extra", "reg-extra"}[r.Cfg(3)]
+				in.Code = r.Cfg(3)
+			}
 			plans[t] = append(plans[t], planOp{in: in, sleep: r.Cfg(8) == 0})
 		}
 	}
 	r.Res.Config["spans"] = nSpans
 	r.Res.Config["procs"] = nProcs
+	r.Res.Config["extra_processors"] = withExtras
 	r.Res.Config["runtime_trace"] = tracing
 	r.Res.Config["plans"] = fmt.Sprintf("%+v", plans)
 	if tracing {
@@ -335,6 +357,16 @@ func (engine) Body(r *simdrv.Run) {
 	otel.SetErrorHandler(otel.ErrorHandlerFunc(func(error) {}))
 
 	var opts []sdktrace.TracerProviderOption
+	var extras []*extraProc
+	if withExtras {
+		for i := 0; i < 3; i++ {
+			e := &extraProc{w: w, id: i, seen: map[string]int{}}
+			extras = append(extras, e)
+			if i < 2 {
+				opts = append(opts, sdktrace.WithSpanProcessor(e)) // two in front of the recording processors
+			}
+		}
+	}
 	w.deliv = make([][]*delivery, nProcs)
 	for i := 0; i < nProcs; i++ {
 		opts = append(opts, sdktrace.WithSpanProcessor(&recProc{w: w, idx: i}))
@@ -390,13 +422,20 @@ func (engine) Body(r *simdrv.Run) {
 				case "child":
 					_, c := tp.Tracer(fmt.Sprintf("child%d", in.Nth%2)).Start(ctxs[in.Span], "child")
 					_ = c
+				case "unreg-extra":
+					tp.UnregisterSpanProcessor(extras[in.Code])
+					r.Fault("unregister-processor-during-span-ops")
+				case "reg-extra":
+					tp.RegisterSpanProcessor(&extraProc{w: w, id: 9, seen: map[string]int{}})
 				}
 				ret := sim.Stamp()
 				r.Log("%d return %s %+v", ret, name, out)
 				if in.Kind == "end" {
 					w.endRets[in.Span] = append(w.endRets[in.Span], ret)
 				}
-				w.hist = append(w.hist, porcupine.Operation{ClientId: t, Input: in, Call: int64(call), Output: out, Return: int64(ret)})
+				if in.Kind != "unreg-extra" && in.Kind != "reg-extra" {
+					w.hist = append(w.hist, porcupine.Operation{ClientId: t, Input: in, Call: int64(call), Output: out, Return: int64(ret)})
+				}
 				r.Res.Ops++
 			}
 		})
@@ -448,6 +487,13 @@ func (engine) Body(r *simdrv.Run) {
 						r.Violate(prop, "processors-disagree", "processors-disagree", "span %d: processor 0 got %q, processor %d got %q", sp, d0.snap, pi, per[sp][0].snap)
 					}
 				}
+			}
+		}
+	}
+	for _, e := range extras {
+		for name, n := range e.seen {
+			if n > 1 {
+				r.Violate(prop, "multiple-onend", fmt.Sprintf("multiple-onend/extra/trace=%v", tracing), "span %s was delivered %d times to a processor that was being unregistered meanwhile", name, n)
 			}
 		}
 	}
